@@ -87,20 +87,6 @@ pub mod q {
         std::mem::forget(c);
         kani::cover!(true, "reached end");
     });
-    // &Pt travels as a raw pointer (mask bit 0 set) or serialized (clear): same observable effect
-    kproof!(shift_ref_packed, 6, {
-        let (x, y, dx): (u32, u32, u32) = (kani::any(), kani::any(), kani::any());
-        let byref: bool = kani::any();
-        let c = conn(if byref { 1 } else { 0 });
-        let p = Pt { x, y };
-        let r = c.shift(&p, dx);
-        assert!(unsafe { SEEN[0] == x as u64 && SEEN[1] == y as u64 && SEEN[2] == dx as u64 }, "C09: the implementation received different argument values (depends on by-reference passing)");
-        assert!(r.x == x.wrapping_add(dx) && r.y == y, "C09: the caller received a different return value");
-        std::mem::forget(c);
-        kani::cover!(byref, "by-reference path taken");
-        kani::cover!(!byref, "serialized path taken");
-        kani::cover!(true, "reached end");
-    });
     // every primitive width in the fixed-size argument / return buffers
     kproof!(wide_ints, 6, {
         let (a, b, cc): (i64, u8, i16) = (kani::any(), kani::any(), kani::any());
@@ -117,14 +103,6 @@ pub mod q {
         let r = c.wide2(a, b, cc);
         assert!(unsafe { SEEN[0] == a && SEEN[1] == b as u8 as u64 && SEEN[2] == cc as u64 }, "C09: the implementation received different argument values (u64/i8/u16)");
         assert!(r.0 == cc && r.1 == a as i64, "C09: the caller received a different tuple return value");
-        std::mem::forget(c);
-        kani::cover!(true, "reached end");
-    });
-    kproof!(unit_ret, 6, {
-        let a: u16 = kani::any();
-        let c = conn(0);
-        c.unit(a);
-        assert!(unsafe { SEEN[0] == a as u64 && CALLS == 1 }, "C09: the implementation received a different argument / was not called once");
         std::mem::forget(c);
         kani::cover!(true, "reached end");
     });
@@ -168,15 +146,6 @@ pub mod t {
         std::mem::forget(c);
         kani::cover!(true, "reached end");
     });
-    kproof!(struct_by_value, 6, {
-        let (x, y): (u32, u32) = (kani::any(), kani::any());
-        let c = conn(0);
-        let r = c.by_val(Pt { x, y });
-        assert!(unsafe { SEEN[0] == x as u64 && SEEN[1] == y as u64 }, "C09: the implementation received a different by-value struct");
-        assert!(r == ((x as u64) << 32) | y as u64, "C09: the caller received a different return value");
-        std::mem::forget(c);
-        kani::cover!(true, "reached end");
-    });
     kproof!(str_arg, 8, {
         let (a, b): (u8, u8) = (kani::any(), kani::any());
         kani::assume(a < 128 && b < 128);
@@ -201,4 +170,40 @@ pub mod t {
         let c = connect::<dyn Calc, dyn Calc>(imp, 0, vec![m(None, 0), m(Some(1), 0), m(Some(2), 0), m(Some(3), 0), m(Some(4), 0), m(Some(5), 0), m(Some(6), 0), m(Some(7), 0), m(Some(8), 0), m(Some(9), 0)]);
         let _ = c.add(1, 2);
     }
+}
+/// Out of reach on this machine (measured with jobs=1: out of memory > 45 GB, or no result in 40 min);
+/// kept for documentation and manual runs, not part of any tier.
+pub mod x {
+    use super::*;
+    // &Pt travels as a raw pointer (mask bit 0 set) or serialized (clear): same observable effect
+    kproof!(shift_ref_packed, 6, {
+        let (x, y, dx): (u32, u32, u32) = (kani::any(), kani::any(), kani::any());
+        let byref: bool = kani::any();
+        let c = conn(if byref { 1 } else { 0 });
+        let p = Pt { x, y };
+        let r = c.shift(&p, dx);
+        assert!(unsafe { SEEN[0] == x as u64 && SEEN[1] == y as u64 && SEEN[2] == dx as u64 }, "C09: the implementation received different argument values (depends on by-reference passing)");
+        assert!(r.x == x.wrapping_add(dx) && r.y == y, "C09: the caller received a different return value");
+        std::mem::forget(c);
+        kani::cover!(byref, "by-reference path taken");
+        kani::cover!(!byref, "serialized path taken");
+        kani::cover!(true, "reached end");
+    });
+    kproof!(unit_ret, 6, {
+        let a: u16 = kani::any();
+        let c = conn(0);
+        c.unit(a);
+        assert!(unsafe { SEEN[0] == a as u64 && CALLS == 1 }, "C09: the implementation received a different argument / was not called once");
+        std::mem::forget(c);
+        kani::cover!(true, "reached end");
+    });
+    kproof!(struct_by_value, 6, {
+        let (x, y): (u32, u32) = (kani::any(), kani::any());
+        let c = conn(0);
+        let r = c.by_val(Pt { x, y });
+        assert!(unsafe { SEEN[0] == x as u64 && SEEN[1] == y as u64 }, "C09: the implementation received a different by-value struct");
+        assert!(r == ((x as u64) << 32) | y as u64, "C09: the caller received a different return value");
+        std::mem::forget(c);
+        kani::cover!(true, "reached end");
+    });
 }
